@@ -565,3 +565,103 @@ func nameIn(name, alts string) bool {
 	}
 	return false
 }
+
+// lockBalance: every Lock/RLock on a sync.Mutex/RWMutex in fn is released on every path to an
+// exit of fn: by a deferred unlock on the same receiver, or by an explicit unlock that every path passes.
+type lockLeak struct {
+	Lock ssa.Instruction
+	Recv string
+	Exit token.Pos
+	Kind string
+}
+
+func (p *Program) lockBalance(fn *ssa.Function) (int, []lockLeak) {
+	ff := p.Facts(fn)
+	isLock := func(n string) (string, bool) {
+		switch n {
+		case "sync.Mutex.Lock", "sync.RWMutex.Lock":
+			return "Unlock", true
+		case "sync.RWMutex.RLock":
+			return "RUnlock", true
+		}
+		return "", false
+	}
+	unlockOf := func(in ssa.Instruction, recv, kind string) (isDefer bool, ok bool) {
+		var c *ssa.CallCommon
+		switch x := in.(type) {
+		case *ssa.Call:
+			c = &x.Call
+		case *ssa.Defer:
+			c = &x.Call
+			isDefer = true
+		default:
+			return false, false
+		}
+		n := calleeName(c)
+		if !strings.HasSuffix(n, "."+kind) || !(strings.HasPrefix(n, "sync.Mutex.") || strings.HasPrefix(n, "sync.RWMutex.")) || len(c.Args) == 0 {
+			return false, false
+		}
+		return isDefer, ff.Term(c.Args[0]) == recv
+	}
+	n := 0
+	var leaks []lockLeak
+	for _, b := range fn.Blocks {
+		for i, in := range b.Instrs {
+			c, ok := in.(*ssa.Call)
+			if !ok {
+				continue
+			}
+			kind, ok := isLock(calleeName(&c.Call))
+			if !ok || len(c.Call.Args) == 0 {
+				continue
+			}
+			n++
+			recv := ff.Term(c.Call.Args[0])
+			// rest of the block
+			released := false
+			for _, in2 := range b.Instrs[i+1:] {
+				if _, ok := unlockOf(in2, recv, kind); ok {
+					released = true
+					break
+				}
+			}
+			if released {
+				continue
+			}
+			has := map[*ssa.BasicBlock]bool{}
+			for _, b2 := range fn.Blocks {
+				for _, in2 := range b2.Instrs {
+					if _, ok := unlockOf(in2, recv, kind); ok {
+						has[b2] = true
+					}
+				}
+			}
+			seen := map[*ssa.BasicBlock]bool{}
+			stack := append([]*ssa.BasicBlock{}, b.Succs...)
+			if len(b.Succs) == 0 {
+				leaks = append(leaks, lockLeak{c, recv, b.Instrs[len(b.Instrs)-1].Pos(), kind})
+				continue
+			}
+			for len(stack) > 0 {
+				x := stack[len(stack)-1]
+				stack = stack[:len(stack)-1]
+				if seen[x] || has[x] || x == fn.Recover {
+					continue
+				}
+				seen[x] = true
+				if len(x.Succs) == 0 {
+					if _, isPanic := x.Instrs[len(x.Instrs)-1].(*ssa.Panic); isPanic {
+						continue
+					}
+					if ff.noReturn(x) {
+						continue
+					}
+					leaks = append(leaks, lockLeak{c, recv, x.Instrs[len(x.Instrs)-1].Pos(), kind})
+					break
+				}
+				stack = append(stack, x.Succs...)
+			}
+		}
+	}
+	return n, leaks
+}
